@@ -50,7 +50,10 @@ class Alias:
     """
 
     ATTR_PARSER = re.compile(
-        r"(?:(?<!^)\.)?(?P<lookup>(?<!\.)\[\"(?:[^\"\\]|\\.)*\"\](?!\.)|(?<!\.)\['(?:[^'\\](?!\.)|\\.)*'\]|\w+)"
+        # An attribute name (after a period, unless it comes first), or an item
+        # lookup with a quoted key (never directly after a period).
+        r"(?:^|(?<!^)\.)(?P<attr>\w+)"
+        r"|(?<!\.)(?P<item>\[\"(?:[^\"\\]|\\.)*\"\]|\['(?:[^'\\]|\\.)*'\])"
     )
 
     def __init__(
@@ -83,7 +86,7 @@ class Alias:
         matches = list(self.ATTR_PARSER.finditer(self.attr))
         if not "".join(match.group(0) for match in matches) == self.attr:
             raise ValueError(f"Invalid attribute path: {self.attr}")
-        return [match.group("lookup") for match in matches]
+        return [match.group("attr") or match.group("item") for match in matches]
 
     @property
     def override_attr(self):
